@@ -105,6 +105,10 @@ func (Predecode) Run(c *orch.Case) *orch.Outcome {
 		is := b.El("a", "Issuer", true)
 		is.SetText(evil)
 		putChild(is)
+	case "paddedIssuer":
+		if is := root.SelectElement("Issuer"); is != nil {
+			is.SetText("\n    " + is.Text() + "\n  ")
+		}
 	case "nestedIssuer":
 		wr := b.Wrapper("Extensions")
 		is := b.El("a", "Issuer", true)
